@@ -411,7 +411,7 @@ func TestVerif_C02(t *testing.T) {
 	vkRequestWatchdog = 120 * time.Second // a request that never returns is a finding, not a worker timeout
 	base := vkBase("c02")
 	defer os.RemoveAll(base)
-	R.Rule = "configuration = non-empty subset of 3 generated epochs (0 with genesis, 1, 2; skipped slots, multi-entry blocks, linked-frame metadata and rewards, vote/failed/no-metadata transactions, parents in the previous epoch) x epoch-search concurrency x request order (cold / warm shared cache); under each configuration EVERY archived slot and signature is requested through JSON-RPC getBlock/getTransaction/getBlockTime in each encoding and gRPC GetBlock/GetTransaction/GetBlockTime (direct and through the Get stream) and compared with generator-side ground truth; non-trivial = request whose answer contains transaction payloads"
+	R.Rule = "configuration = non-empty subset of 3 generated epochs (0 with genesis, 1, 2; skipped slots, multi-entry blocks, linked-frame metadata and rewards, vote/failed/no-metadata transactions, parents in the previous epoch) x epoch-search concurrency x request order (cold / warm shared cache), plus configurations that serve all epochs or only the middle one through the deprecated index formats (size-less cid-to-offset index, deprecated sig-exists index); under each configuration EVERY archived slot and signature is requested through JSON-RPC getBlock/getTransaction/getBlockTime in each encoding and gRPC GetBlock/GetTransaction/GetBlockTime (direct and through the Get stream) and compared with generator-side ground truth; non-trivial = request whose answer contains transaction payloads"
 	R.Assume("generator constraints so that the oracle asks only what the statement fixes: every block has at least one entry, a non-zero block time, a position index on every transaction, and its parent is the previous archived block; slot 0's block time/height/parent are not compared (the server substitutes genesis values)")
 	shapes := c02Shapes()
 	var eps []*vEpoch
@@ -435,9 +435,40 @@ func TestVerif_C02(t *testing.T) {
 	R.Bounds["subsets"] = len(subsets)
 	R.Bounds["concurrency_values"] = concs
 	R.Bounds["encodings"] = encs
-	idx := int64(0)
+	// legacy format: the same epochs served through configs that name the deprecated (size-less)
+	// cid-to-offset index and the deprecated sig-exists index, built with the repository's legacy builders
+	legacyCfg := map[*vEpoch]string{}
+	for _, e := range eps {
+		p, err := e.writeLegacyConfig(vkConfigOpts{NoGsfa: true})
+		if err != nil {
+			R.Internal("cannot build the legacy-format indexes of epoch %d: %v", e.Truth.Epoch, err)
+			return
+		}
+		legacyCfg[e] = p
+	}
+	type c02Cfg struct {
+		mask, conc int
+		legacy     int // 0 = current formats, 1 = every epoch legacy, 2 = only the middle epoch legacy
+	}
+	var cfgs []c02Cfg
 	for _, mask := range subsets {
 		for _, conc := range concs {
+			cfgs = append(cfgs, c02Cfg{mask, conc, 0})
+		}
+	}
+	legacyMasks := []int{2, 7}
+	if vkit.Thorough() {
+		legacyMasks = []int{1, 2, 4, 5, 7}
+	}
+	for _, mask := range legacyMasks {
+		cfgs = append(cfgs, c02Cfg{mask, concs[len(concs)-1], 1})
+	}
+	cfgs = append(cfgs, c02Cfg{7, 1, 2})
+	R.Bounds["legacy_format_configurations"] = len(legacyMasks) + 1
+	idx := int64(0)
+	for _, cf := range cfgs {
+		{
+			mask, conc := cf.mask, cf.conc
 			mine := vkit.Mine(idx)
 			idx++
 			if !mine {
@@ -454,7 +485,11 @@ func TestVerif_C02(t *testing.T) {
 				if mask&(1<<i) == 0 {
 					continue
 				}
-				ep, err := vkLoadEpoch(e.ConfigPath, cache)
+				cfgPath := e.ConfigPath
+				if cf.legacy == 1 || (cf.legacy == 2 && i == 1) {
+					cfgPath = legacyCfg[e]
+				}
+				ep, err := vkLoadEpoch(cfgPath, cache)
 				if err != nil {
 					R.Violation("C02|load-epoch", fmt.Sprintf("epoch %d built by the real indexer does not load: %v", e.Truth.Epoch, err), map[string]interface{}{"epoch": e.Truth.Epoch})
 					okLoad = false
@@ -469,12 +504,15 @@ func TestVerif_C02(t *testing.T) {
 			w := &c02World{eps: loaded, multi: vkNewMulti(conc, real...)}
 			w.h = newMultiEpochHandler(w.multi, nil)
 			cfgName := fmt.Sprintf("epochs=%03b conc=%d", mask, conc)
+			if cf.legacy != 0 {
+				cfgName += fmt.Sprintf(" legacy-format=%d", cf.legacy)
+			}
 			for pass, reverse := range []bool{false, true} {
 				if w.dead {
 					break
 				}
 				w.checkAll(loaded, reverse, encs, func(f c02Finding) {
-					R.Violation("C02|"+f.class, fmt.Sprintf("[%s pass=%d] %s", cfgName, pass, f.detail), map[string]interface{}{"mask": mask, "conc": conc, "pass": pass})
+					R.Violation("C02|"+f.class, fmt.Sprintf("[%s pass=%d] %s", cfgName, pass, f.detail), map[string]interface{}{"mask": mask, "conc": conc, "pass": pass, "legacy": cf.legacy})
 				}, func(nt bool) { R.Case(nt, "") })
 			}
 			R.Outcome(cfgName + ":done")
